@@ -141,7 +141,7 @@ def _exec_redirect(ctx, case):
     from swcgeom.core import redirect_tree
 
     spec = G.spec_from_recipe(case["tree"])
-    tree = G.build(spec)
+    tree = G.build(spec, frozen_ok=True)
     cur = tree
     what = "redirect_tree"
     if case.get("first") is not None:
@@ -191,7 +191,8 @@ def _exec_cat(ctx, case):
     sa, sb = G.spec_from_recipe(case["A"]), G.spec_from_recipe(case["B"])
     sb = dict(sb)
     sb["tag"] = sb["tag"] + TAG_B
-    A, B = G.build(sa), G.build(sb)
+    fz = case.get("junction", "asis") == "asis"  # other modes edit the trees before the call
+    A, B = G.build(sa, frozen_ok=fz), G.build(sb, frozen_ok=fz)
     a, b, tr = case["a"], case["b"], case["translate"]
     _place_junction(A, B, a, b, case.get("junction", "asis"), case.get("jseed", 0))
     ca, cb = _cols(A), _cols(B)
@@ -361,7 +362,7 @@ def _workload(ctx):
         # concatenation
         rb = G.random_recipe(rng, max_n=G.size_ladder(ctx, k, 7, 20, 80),
                              extras=int(rng.integers(0, 3)),
-                             geoms=["growth", "gauss", "int", "quarter", "coincident", "axis"])
+                             geoms=["growth", "gauss", "int", "quarter", "coincident", "axis", "plane"])
         ra = dict(rc)
         if ra["geom"] in ("far", "big", "tiny"):
             ra["geom"] = "growth"
